@@ -2,6 +2,9 @@
      P <src> <halt_at> <fuel> <prog> <cmds> <vars> [<script text, used by the Rust side only>]
         -> <OK|ERR|FUEL> <detail> <line> <src> <log> <vars>      run of the model
            (kind Q = the same for the model; the Rust side runs it with the runner's default Env)
+     B <src> <halt_at> <fuel> <prog> <cmds> <vars> <text>
+        -> the same through RunnerBind.run_bound: arguments are bound (Expansion.bind_args) against the
+           variables of the moment; the log shows the BOUND arguments
      I <src> <n> <prog> <cmds> <vars>
         -> CFG <pc> <halt flag> - <log> <vars>  |  NONE           un-halted machine after n iterations
      F <src> <n> <maxsteps> <prog> <cmds> <vars>
@@ -84,10 +87,12 @@ let show_err = function
 
 let () = iter_lines (fun line ->
   match fields line with
-  | ("P" | "Q") :: src :: halt_at :: fuel :: prog :: cmds :: vars :: _ ->
+  | (("P" | "Q" | "B") as kind) :: src :: halt_at :: fuel :: prog :: cmds :: vars :: _ ->
       let src = opt_of_field src in
       let h = if halt_at = "N" then None else Some (nat_of_int (int_of_string halt_at)) in
-      (match s_run (nat_of_int (int_of_string fuel)) h (parse_prog src prog) (parse_vars vars) (parse_cmds cmds) with
+      (* B: the runner WITH argument binding (RunnerBind.run_bound over the scripted commands) *)
+      let runner = if kind = "B" then sb_run else s_run in
+      (match runner (nat_of_int (int_of_string fuel)) h (parse_prog src prog) (parse_vars vars) (parse_cmds cmds) with
        | OutOfFuel -> print_endline "FUEL\t-\t-\t-\t-\t-"
        | Done (FOk (r, w), t) ->
            Printf.printf "OK\t%s\t-\t-\t%s\t%s\n"
